@@ -43,6 +43,27 @@ def tokStub (keys : List String) (w : Option Nat) (s : String) (k : String) : Li
   | none => base
   | some w => (base ++ List.replicate w 0).take w
 
+/-- insertion order of the keys of the mapping the stub builds for sentence `s` (the harness implements the
+    same: `chunk16.key_order`); mappings are keyed, so every order is a legal tokenizer output. -/
+def keyOrder (mode : String) (keys : List String) (s : String) : List String :=
+  match mode with
+  | "rev" => if s.length % 2 == 1 then keys.reverse else keys
+  | "rot" => keys.rotateLeft (((ords s).sum.toNat) % (max 1 keys.length))
+  | _ => keys
+
+/-- format "list of per-sentence mappings", every sentence with its own key order -/
+def tokSentencesOrd (mode : String) (keys : List String) (g : String → String → List Int) (xs : List String) :
+    TokOut Int :=
+  .sentences (xs.map fun s => (keyOrder mode keys s).map fun k => (k, g s k))
+
+/-- format "one mapping of 2-D tensors", the key order decided per call -/
+def tokMappingOrd (mode : String) (keys : List String) (g : String → String → List Int) (xs : List String) :
+    TokOut Int :=
+  let ks := match xs with
+    | [] => keys
+    | s :: _ => keyOrder mode keys s
+  .mapping (ks.map fun k => (k, xs.map fun s => g s k))
+
 def jMNT (m : MNT Int) : Json :=
   Json.mkObj [("R", m.numRows), ("C", m.numCols), ("values", jInts m.values), ("offset", jNats m.offset)]
 
@@ -72,7 +93,14 @@ def handle (j : Json) : Except String Json := do
       let keys ← strList (← j.getObjVal? "keys")
       let w ← optNat j "W"
       let g := tokStub keys w
-      let tok := if (← getStr j "kind") == "tok_map" then tokMapping keys g else tokSentences keys g
+      let mode := match j.getObjVal? "ord" with
+        | .ok (.str m) => m
+        | _ => "fixed"
+      let isMap := (← getStr j "kind") == "tok_map"
+      let tok := if mode == "fixed" then
+          (if isMap then tokMapping keys g else tokSentences keys g)
+        else
+          (if isMap then tokMappingOrd mode keys g else tokSentencesOrd mode keys g)
       pure (match tokenizeColumn tbl tok bs cells with
             | none => raisesJ
             | some kms => okJ (jList (fun (km : Key × MNT Int) => Json.arr #[(km.1 : Json), jMNT km.2]) kms))
